@@ -1,9 +1,12 @@
 #!/bin/sh
-# try_seed.sh <patch.diff> <Cxx> [tier]: apply a seeded change to /repo, run the check, undo it straight afterwards.
+# try_seed.sh <patch.diff> <Cxx> [tier]: run a check against a scratch worktree of /repo with the seeded change applied.
+# /repo itself and the committed evidence are not touched (VERIF_REPO / VERIF_OUT_DIR).
 P=$1; ID=$2; TIER=${3:-quick}
-cd /repo && git diff --quiet || { echo "/repo dirty"; exit 2; }
-git -C /repo apply "$P" || exit 2
-cd /verif && ./check $ID --tier $TIER > /tmp/try_seed.out 2>&1; RC=$?
-git -C /repo checkout -- .
-grep -E "^VIOLATION|^KNOWN-FINDING|BROKEN" /tmp/try_seed.out | head -5
+W=/tmp/seedrepo-$$; O=/tmp/seedout-$$
+git -C /repo worktree add -q --detach $W HEAD || exit 2
+git -C $W apply "$P" || { git -C /repo worktree remove --force $W; exit 2; }
+mkdir -p $O
+cd /verif && VERIF_REPO=$W VERIF_OUT_DIR=$O ./check $ID --tier $TIER > $O/out.txt 2>&1; RC=$?
+grep -E "^VIOLATION|^KNOWN-FINDING|BROKEN" $O/out.txt | cut -c1-220 | head -6
 echo "rc=$RC"
+git -C /repo worktree remove --force $W; rm -rf $O
